@@ -8,7 +8,9 @@ set_option linter.unusedSimpArgs false
 variable {G E T O : Type}
 
 /-- **The activator/scheduler protocol assumed** (it is the contract of `TagActivator` and of the schedulers; the
-trace validation evaluates it on every recorded leg). `R e h` = handler `h` is in `_running_event_handlers`. -/
+trace validation evaluates it on every recorded leg). `R e h` = handler `h` is in `_running_event_handlers`.
+Nothing is assumed about how the scheduler breaks ties between equal candidate times: both mediators issue the same
+`push_event` calls in the same order, so the scheduler goes through the same states. -/
 structure Protocol (env : Env G E T O) (R : E → Nat → Bool) : Prop where
   /-- `get_event_handlers_to_run` returns a dictionary: distinct handlers -/
   act_nodup : ∀ g e, (env.activate g e).1.Nodup
@@ -20,9 +22,6 @@ structure Protocol (env : Env G E T O) (R : E → Nat → Bool) : Prop where
   choose_run : ∀ g e l, R (env.activate g e).2 (env.choose (env.activate g e).2 l).1 = true
   /-- the scheduler does not change which handlers run -/
   choose_keep : ∀ e l h, R (env.choose e l).2 h = R e h
-  /-- the answer of the scheduler does not depend on the order in which the candidate times of one leg were pushed
-  (true when they are pairwise different; ties within one leg are outside this model) -/
-  choose_perm : ∀ e l l', l.Perm l' → env.choose e l = env.choose e l'
   /-- `get_trashable_events`: `assert preceding_event_handler in trashable_events` -/
   trash_self : ∀ e c, c ∈ (env.trash e c).1
   /-- trashed handlers stop running, nothing else changes -/
@@ -53,14 +52,15 @@ theorem runMP_refines (env : Env G E T O) (R : E → Nat → Bool) (P : Protocol
     · have hleg' : legLegit cfg n s cr ws = true := by simpa using hleg
       rcases legRecv_ok cfg n ws hB hnd hfresh hleg' with ⟨hst, -⟩ | ⟨L, rst, hL, hP, -, -⟩
       · right; exact ⟨n, Or.inr (by simp [runMP, hact, hleg', hst])⟩
-      · -- the scheduler sees a permutation of what the single-process mediator pushes
-        have hperm : (L.pushed.map fun p => (p.1, env.timeOf p.1 p.2 ((fun m => if m = n then g else hist m) p.2))).Perm
+      · -- the scheduler sees exactly the pushes of the single-process mediator
+        have hpush : ((cr.map fun h => (h, n)).map
+              fun p => (p.1, env.timeOf p.1 p.2 ((fun m => if m = n then g else hist m) p.2))) =
             (cr.map fun h => (h, env.timeOf h n g)) := by
-          have := hP.perm.map fun p : Nat × Nat => (p.1, env.timeOf p.1 p.2 ((fun m => if m = n then g else hist m) p.2))
-          simpa [List.map_map, Function.comp_def] using this
-        have hch := P.choose_perm e1 _ _ hperm
+          simp [List.map_map, Function.comp_def]
         rcases hc : env.choose e1 (cr.map fun h => (h, env.timeOf h n g)) with ⟨c, e2⟩
-        rw [hc] at hch
+        have hch : env.choose e1 ((cr.map fun h => (h, n)).map
+              fun p => (p.1, env.timeOf p.1 p.2 ((fun m => if m = n then g else hist m) p.2))) = (c, e2) := by
+          rw [hpush]; exact hc
         have hcrun : R e1 c = true := by
           have := P.choose_run g e (cr.map fun h => (h, env.timeOf h n g))
           rw [hact] at this; simp only at this; rwa [hc] at this
